@@ -10,6 +10,7 @@ Failure clauses (first component = property the clause belongs to):
   C03.foreign_file C03.dir_removed
   C04.answer C04.consistency C04.walk_order
   C05.unjustified C05.unchanged_rebuild C05.rewrite
+  C01.stale_decision C06.missed_invalidation C08.setup_failed_served C13.missed_change   (forward decisions)
   C08.multi_invocation
   C10.contract
   C12.tree C12.noop C12.tmpdir C12.after_clean
@@ -26,7 +27,7 @@ from .canon import canon
 from .model import (Crash, ModelBuild, ModelBuilder, ModelFS, Node, Prev, UserError, events_equal,
                     index_forest, substitute_real_meta)
 from .runner import failure
-from .sandbox import Sandbox, model_tree, snapshot
+from .sandbox import LONG_NAME, Sandbox, model_tree, snapshot
 
 BUILD_NAME = 'fbverif'
 
@@ -61,6 +62,7 @@ class Harness:
         self.last_committed = None
         self.mutated_since_commit = False
         self.ever_outputs = set()
+        self.stale_allowed = False      # C13: a content change hidden from METADATA was made (legitimately served stale)
         self.after_clean = False
         self.commits = 0
         self.created_sets = []
@@ -80,7 +82,7 @@ class Harness:
     def relp(self, p):
         try:
             if p == self.R or p.startswith(self.R + '/'):
-                return os.path.relpath(p, self.R)
+                return self.sb.rel(p)
         except Exception:
             pass
         return p
@@ -130,11 +132,14 @@ class Harness:
         if op == 'rm_cache':
             if os.path.isfile(self.cache):
                 os.remove(self.cache)
+                self.stale_allowed = False
                 return True
             return False
         p = sb.ap(s[1])
         if self.protected(p) and op != 'rm':
             return False
+        if any(len(c) > 255 for c in p.split('/')):
+            return False        # the OS cannot create such a name: no external change possible
         if op == 'rm' and (p == self.R):
             return False
         if op == 'write':
@@ -188,6 +193,7 @@ class Harness:
                 with open(p, 'wb') as f:
                     f.write(new)
                 os.utime(p, ns=(st.st_atime_ns, st.st_mtime_ns))
+                self.stale_allowed = True
                 return True
             return False
         if op == 'rewrite_same':
@@ -242,6 +248,9 @@ class Harness:
 
     # ---- build ---------------------------------------------------------------------------------------
     def build(self, versions, fail_at=None, crash_at=None, mode=None):
+        if isinstance(versions, dict) and '$v' in versions:
+            from .valuecodec import dec
+            versions = dec(versions['$v'])
         if crash_at is None:
             self.step += 1
             ctx_step = self.step
@@ -371,7 +380,7 @@ class Harness:
             fails.extend(tf)
             real_meta = {p: (len(post[p][1]), post[p][2]) for p in mb.outputs if p in post and post[p][0] == 'f'}
             substitute_real_meta(mb.forest, {p: mctx.mtime_for(p) for p in mb.outputs}, real_meta)
-            if has_cache and view_ok and not tf and not any(f['clause'] == 'C01.outcome' for f in fails):
+            if has_cache and (self.stale_allowed or (view_ok and not tf and not any(f['clause'] == 'C01.outcome' for f in fails))):
                 fails.extend(self._check_c05(mb, versions, pre, post, rctx, info))
             elif has_cache:
                 st['c05_skipped_presupposition'] += 1
@@ -392,6 +401,11 @@ class Harness:
             st['rollbacks_on_cache'] += has_cache
             if has_cache and nr > 0:
                 st['rollbacks_after_work_on_cache'] += 1
+        if self.stale_allowed:
+            # content-level comparison with from-scratch is meaningless once a stale hit was legitimate
+            n0 = len(fails)
+            fails = [f for f in fails if f['clause'] not in ('C01.outcome', 'C01.tree', 'C04.answer')]
+            st['stale_allowed_content_failures_ignored'] += n0 - len(fails)
         # ---- twin bookkeeping (C02c: the build after a failed build == the same build without it)
         summary = {'outcome': _outcome_key(rret), 'tree': {k: v[:3] for k, v in post.items() if k != self.cache},
                    'cache_present': self.cache in post, 'log': [(l['inv']) for l in rctx.log]}
@@ -654,6 +668,11 @@ class Harness:
 
     # ---- C05 -----------------------------------------------------------------------------------------------------
     def _check_c05(self, mb, versions, pre, post, rctx, info):
+        """Decision oracles on the invocation log (both directions).
+
+        backward (C05): every function the library invoked needs a reason from the property's list;
+        forward  (C06/C08/C13/C01): every call that from-scratch execution reaches, whose callers were
+        all executed, and whose previous record can definitely not be reused, must have been invoked."""
         fails = []
         prev = mb.prev
         pidx = index_forest(prev.forest)
@@ -667,43 +686,93 @@ class Harness:
                 return rec[0] == cur[1]
             return (len(rec[0]), rec[1]) == (len(cur[1]), cur[2])
 
-        cinv = {}
-        for r in mb.forest:
-            for n in r.walk():
-                if not n.setup_failed:
-                    inv = 'F:' + n.path if n.kind == 'file' else 'S:%s:%s' % (n.fname, _ct([n.args, n.kwargs]))
-                    cinv.setdefault(inv, n)
+        def exists_now(q):
+            return q in pre and q not in prev.outputs
+
+        def inv_of(n):
+            return 'F:' + n.path if n.kind == 'file' else 'S:%s:%s' % (n.fname, _ct([n.args, n.kwargs]))
+
         strict = (not self.mutated_since_commit and not getattr(prev, 'overwrote_foreign', False)
-                  and canon(dict(prev.versions)) == canon(dict(versions)))
+                  and versions_equal(prev.versions, versions, list(self.prog['funcs'])))
         if strict:
             self.stats['c05_unchanged_rebuilds'] += 1
             if any(n.raised for r in prev.forest for n in r.walk()):
                 self.stats['c05_unchanged_rebuilds_with_raised_record'] += 1
                 self.flags.add('c05_unchanged_with_raised')
-        invoked_paths = set()
-        for l in rctx.log:
-            if l['kind'] == 'F':
-                invoked_paths.add(l['path'])
-            cur = cinv.get(l['inv'])
-            if cur is None:
-                self.stats['c05_invoked_missing_in_model'] += 1
-                continue
-            j = justification(cur, pidx, prev.versions, versions, intact, self.masked,
-                              lambda q: q in pre and q not in prev.outputs)
-            self.stats['c05_j_' + j.split(':')[0] if j else 'c05_j_NONE'] += 1
-            if j is None:
-                p = pidx[cur.key]
-                fails.append(self._fail('C05.unjustified', 'unjustified re-execution of a %s' % cur.kind,
-                                        {**info, 'key': _relkey(self, cur.key), 'prev': _reljson(self, p.to_json()),
-                                         'cur': _reljson(self, cur.to_json())}))
+        real_invoked = {l['inv'] for l in rctx.log}
+        invoked_paths = {l['path'] for l in rctx.log if l['kind'] == 'F'}
+        seen_inv = set()
+        changed_fnames = {f for f in self.prog['funcs'] if canon(prev.versions.get(f)) != canon(versions.get(f))}
+        kept_root_subtrees = 0
+        nested_changed = False
+
+        def visit(node, parent_executed, depth):
+            nonlocal kept_root_subtrees, nested_changed
+            if node.setup_failed:
+                return None
+            inv = inv_of(node)
+            invoked = inv in real_invoked
+            seen_inv.add(inv)
+            if parent_executed:
+                j = justification(node, pidx, prev.versions, versions, intact, self.masked, exists_now)
+                if invoked:
+                    self.stats['c05_j_' + (j.split(':')[0] if j else 'NONE')] += 1
+                    if j is None:
+                        p = pidx[node.key]
+                        return self._fail('C05.unjustified', 'unjustified re-execution of a %s' % node.kind,
+                                          {**info, 'key': _relkey(self, node.key), 'prev': _reljson(self, p.to_json()),
+                                           'cur': _reljson(self, node.to_json())})
+                    if j not in ('no-record', 'record-raised'):
+                        self.flags.add('c05_refutable')
+                        self.stats['c05_refutable_invocations'] += 1
+                    if j.startswith('version') and depth > 0:
+                        nested_changed = True
+                    knock_on = False
+                    if j.startswith('trace-differs:read|'):
+                        # a METADATA/HASH read of an output that an (allowed) re-execution rewrote in this very
+                        # build legitimately answers differently: a consequence, not an unjustified miss
+                        q = j.split('|', 1)[1]
+                        knock_on = q in invoked_paths and q in mb.outputs
+                        if knock_on:
+                            self.stats['c05_strict_knock_on_tolerated'] += 1
+                    if strict and not knock_on and not (j in ('record-raised', 'nested-setup-failed') or j.startswith('undecidable')):
+                        return self._fail('C05.unchanged_rebuild',
+                                          'unchanged rebuild re-executes a call that did not raise last time (%s)' % j.split('|')[0],
+                                          {**info, 'key': _relkey(self, node.key), 'justification': j})
+                else:
+                    self.stats['decisions_served_from_cache'] += 1
+                    if changed_fnames:
+                        kept_root_subtrees += 1
+                    if j is not None and not j.startswith('undecidable'):
+                        reason = j.split(':')[0]
+                        clause = {'version': 'C06.missed_invalidation', 'nested-setup-failed': 'C08.setup_failed_served',
+                                  'output-changed': 'C13.missed_change'}.get(reason)
+                        if clause is None:
+                            clause = 'C13.missed_change' if j.startswith('trace-differs:read') else 'C01.stale_decision'
+                        p = pidx.get(node.key)
+                        return self._fail(clause, 'a call was served from the cache although its record cannot be reused (%s)' % j.split('|')[0],
+                                          {**info, 'key': _relkey(self, node.key), 'reason': j,
+                                           'prev': _reljson(self, p.to_json()) if p else None,
+                                           'cur': _reljson(self, node.to_json())})
+            for e in node.events:
+                if isinstance(e, Node):
+                    f = visit(e, invoked, depth + 1)
+                    if f:
+                        return f
+            return None
+
+        for root in mb.forest:
+            f = visit(root, True, 0)
+            if f:
+                fails.append(f)
                 return fails
-            if j not in ('no-record', 'record-raised'):
-                self.flags.add('c05_refutable')
-                self.stats['c05_refutable_invocations'] += 1
-            if strict and not (j in ('record-raised', 'nested-setup-failed') or j.startswith('undecidable')):
-                fails.append(self._fail('C05.unchanged_rebuild', 'unchanged rebuild re-executes a call that did not raise last time (%s)' % j.split(':')[0],
-                                        {**info, 'key': _relkey(self, cur.key), 'justification': j}))
-                return fails
+        for inv in real_invoked - seen_inv:
+            self.stats['c05_invoked_missing_in_model'] += 1
+        if changed_fnames:
+            self.stats['c06_version_change_builds'] += 1
+            if nested_changed and kept_root_subtrees:
+                self.flags.add('c06_nontrivial')
+                self.stats['c06_nontrivial_builds'] += 1
         # outputs whose function was not invoked keep inode and mtime
         for p in mb.outputs:
             if p in invoked_paths:
@@ -776,6 +845,7 @@ class Harness:
             self.last_committed = None
             self.after_clean = True
             self.mutated_since_commit = True
+            self.stale_allowed = False
         return fails
 
 
@@ -817,7 +887,7 @@ def justification(cur, prev_idx, prev_versions, versions, intact, masked, exists
             # the record says "no file was produced" (comparison result: none); something is there now
             return 'failed-output-now-exists'
     if len(p.events) != len(cur.events) or not all(events_equal(x, y) for x, y in zip(p.events, cur.events)):
-        return 'trace-differs'
+        return 'trace-differs:' + first_difference(p, cur)
     # latitudes: answers whose value the model cannot pin down
     for n in p.walk():
         for e in n.events:
@@ -831,6 +901,25 @@ def justification(cur, prev_idx, prev_versions, versions, intact, masked, exists
                     if q == m or os.path.dirname(m) == q or (e[1] in ('walk', 'walk_bu') and (m + '/').startswith(q + '/')):
                         return 'undecidable-L2'
     return None
+
+
+def first_difference(p, c):
+    """Kind of the first differing event of two recorded traces ('read', 'exists', ..., 'call', 'length')."""
+    for x, y in zip(p.events, c.events):
+        if isinstance(x, Node) and isinstance(y, Node):
+            if not events_equal(x, y):
+                if (x.key, x.fname, x.raised, x.setup_failed) != (y.key, y.fname, y.raised, y.setup_failed):
+                    return 'call'
+                return first_difference(x, y)
+        elif isinstance(x, Node) or isinstance(y, Node):
+            return 'call'
+        elif not events_equal(x, y):
+            return (x[1] + '|' + x[2]) if x[1] == y[1] and x[2] == y[2] else 'call'
+    return 'length'
+
+
+def versions_equal(a, b, names):
+    return all(canon(a.get(n)) == canon(b.get(n)) for n in names)
 
 
 # --------------------------------------------------------------------------------------------------
@@ -880,11 +969,11 @@ def _ans_sig(a):
 
 def _relans(h, a):
     s = json.dumps(a, default=_dflt)
-    return s.replace(h.R + '/', '').replace(h.R, '.')
+    return s.replace(h.R + '/', '').replace(h.R, '.').replace(LONG_NAME, '@LONG')
 
 
 def _reljson(h, j):
-    return json.loads(json.dumps(j, default=_dflt).replace(h.R + '/', '').replace(h.R, '.'))
+    return json.loads(json.dumps(j, default=_dflt).replace(h.R + '/', '').replace(h.R, '.').replace(LONG_NAME, '@LONG'))
 
 
 def _relkey(h, key):
@@ -901,7 +990,7 @@ def _depth_sig(h, p):
 # replay
 # --------------------------------------------------------------------------------------------------
 
-def run_scenario(sc, clauses=None):
+def run_scenario(sc, clauses=None, adopt=None):
     """Run a complete scenario; returns (failures, harness stats).  ``clauses``: optional prefix
     filter, e.g. ('C01',)."""
     h = Harness(sc['prog'], sc.get('cache', 'cache.gz'), sc.get('opts'))
@@ -910,6 +999,12 @@ def run_scenario(sc, clauses=None):
         for s in sc['steps']:
             fs = h.apply(list(s))
             if fs:
+                if adopt is not None:
+                    for f in fs:
+                        if clauses and f['clause'].split('.')[0] not in clauses:
+                            nc = adopt(h, f)
+                            if nc:
+                                f['clause'] = nc
                 out = fs
                 break
         stats = h.stats
